@@ -87,6 +87,14 @@ func RunBatch(bound int, maxExecs int64, names []string) []schedrun.Result {
 		out = append(out, res...)
 		mu.Unlock()
 	})
+	if f := os.Getenv("VERIF_DUMP_SCEN"); f != "" { // debugging aid: per-scenario counters, to compare two runs
+		if fh, err := os.OpenFile(f, os.O_APPEND|os.O_CREATE|os.O_WRONLY, 0o644); err == nil {
+			for _, r := range out {
+				fmt.Fprintf(fh, "%s bound=%d executions=%d points=%d nodes=%d failures=%d\n", r.Scenario, bound, r.Executions, r.Points, r.Nodes, len(r.Failures))
+			}
+			fh.Close()
+		}
+	}
 	return out
 }
 
